@@ -21,6 +21,7 @@ EXPLANATION = (
     "  The buffer is a list: add() iterates the live buffer while send() may append, which a deque answers with RuntimeError."
     "  The threaded writer's own rules (C19: unregister before the stop marker is queued, reader leaves only on the marker, a destination failure is contained inside the loop, one delivery per dequeued item) are part of this property as well."
     '  Destinations.add/remove may not store a value computed from an earlier read of the destination list without a lock (lost update).'
+    "  The buffering destination's list may not be replaced during the hand-over (a store to <buffer>.messages in add / an expanded helper)."
 )
 RULE = ("obligation = rule instance bound to a statement / loop / flag of BufferingDestination, Destinations.add/"
         "remove/send; non-trivial = CFG paths examined")
